@@ -111,7 +111,24 @@ Fixpoint run_base_ops (c : scfg) (ck : N) (ops : list op) (w : bworld) : list N 
   | _ :: r => run_base_ops c ck r w
   end.
 
-(** ** mpsc with remote senders (kind 2) *)
+(** ** mpsc with remote senders (kind 2)
+
+    The sending endpoint: per remote sender a queue worked off by [send_impl] ([run_burst]).  The
+    receiving endpoint is the state machine of [Rch/Mpsc.v] driven by concrete actions: what a sender's
+    base receiver yields is appended to its source and forwarded at once ([MFwd], the local buffer is
+    never full in this kind), the end of its port is [MStop], a [recv] is [MRecv].  (Appending to a
+    source later is the same run as having had it from the start: [MFwd] only looks at the head.) *)
+Definition entry_of (r : bres) : list mentry :=
+  match r with
+  | ROk b => [MVal b]
+  | RErrSize => [MErr 1]
+  | RErrDeser => [MErr 2]
+  | RErrMissing => [MErr 3]
+  | RErrPorts => [MErr 4]
+  | REnd => []
+  end.
+Definition entries_of (l : list bres) : list mentry := flat_map entry_of l.
+
 Record msender := mk_msender {
   m_bd : Z; m_err : bool; m_gone : bool; m_rx : bstate;
   m_burst : list spec          (** queued at the sending endpoint in the current burst *)
@@ -119,12 +136,9 @@ Record msender := mk_msender {
 
 Record mworld := mk_mworld {
   mw_snd : list msender;
-  mw_q : list bres;            (** the receiver's local queue (never full in this kind) *)
-  mw_alive : list bool;
+  mw_m : mstate;               (** the receiving endpoint *)
   mw_sent : list (N * N)
 }.
-
-Definition mentry_of (r : bres) : option bres := match r with REnd => None | _ => Some r end.
 
 (** all results of feeding frames eagerly (the forwarding task keeps receiving) *)
 Fixpoint feed_eager (s : bstate) (fs : list frame) : bstate * list bres :=
@@ -135,6 +149,18 @@ Fixpoint feed_eager (s : bstate) (fs : list frame) : bstate * list bres :=
       let '(s2, o2) := feed_eager s1 r in
       (s2, o1 ++ o2)
   end.
+
+Definition is_end (r : bres) : bool := match r with REnd => true | _ => false end.
+
+Definition add_src (m : mstate) (i : nat) (es : list mentry) : mstate :=
+  {| srcs := set_nth i (nth i (srcs m) [] ++ es) (srcs m); alive := alive m; queue := queue m; cap := cap m;
+     final_err := final_err m; outs := outs m |}.
+
+(** the forwarding task of sender [i] obtained these results from its base receiver *)
+Definition forward (m : mstate) (i : nat) (res : list bres) : mstate :=
+  let es := entries_of res in
+  let m1 := mrun (repeat (MFwd i) (length es)) (add_src m i es) in
+  if existsb is_end res then mstep m1 (MStop i) else m1.
 
 (** [send_impl] works off the burst of one sender; returns classes, frames *)
 Fixpoint run_burst (c : scfg) (ck : N) (bd : Z) (err : bool) (items : list spec) : Z * bool * list N * list frame :=
@@ -147,21 +173,18 @@ Fixpoint run_burst (c : scfg) (ck : N) (bd : Z) (err : bool) (items : list spec)
       (bd2, err2, sres_num res :: cls, flat_map (att_frames ck) atts ++ fs)
   end.
 
-Fixpoint burst_all (c : scfg) (ck : N) (snd : list msender)
-  : list msender * list bres * list bool * list (list N) :=
+Fixpoint burst_all (c : scfg) (ck : N) (snd : list msender) (i : nat) (m : mstate)
+  : list msender * mstate * list (list N) :=
   match snd with
-  | [] => ([], [], [], [])
-  | m :: r =>
-      let '(bd', err', cls, fs) := run_burst c ck (m_bd m) (m_err m) (m_burst m) in
+  | [] => ([], m, [])
+  | x :: r =>
+      let '(bd', err', cls, fs) := run_burst c ck (m_bd x) (m_err x) (m_burst x) in
       (* a failed send closes the channel: after the queued values the port is finished *)
-      let closing := err' && negb (m_gone m) in
+      let closing := err' && negb (m_gone x) in
       let fs' := if closing then fs ++ [FFin] else fs in
-      let '(rx', res) := feed_eager (m_rx m) fs' in
-      let '(r', q, al, cl) := burst_all c ck r in
-      ({| m_bd := bd'; m_err := err'; m_gone := m_gone m || closing; m_rx := rx'; m_burst := [] |} :: r',
-       filter (fun x => match x with REnd => false | _ => true end) res ++ q,
-       negb (m_gone m || closing) :: al,
-       cls :: cl)
+      let '(rx', res) := feed_eager (m_rx x) fs' in
+      let '(r', m', cl) := burst_all c ck r (S i) (forward m i res) in
+      ({| m_bd := bd'; m_err := err'; m_gone := m_gone x || closing; m_rx := rx'; m_burst := [] |} :: r', m', cls :: cl)
   end.
 
 Fixpoint pop_class (cl : list (list N)) (i : nat) : N * list (list N) :=
@@ -186,14 +209,23 @@ Fixpoint enqueue (snd : list msender) (i : nat) (s : spec) : list msender :=
   | m :: r, S i' => m :: enqueue r i' s
   end.
 
-Fixpoint drop_sender (snd : list msender) (i : nat) : list msender * list bool :=
+(** the remote sender is dropped: its port is finished *)
+Fixpoint drop_sender (snd : list msender) (i : nat) : list msender * list bres :=
   match snd, i with
   | [], _ => ([], [])
   | m :: r, O =>
-      let '(rx', _) := feed_eager (m_rx m) [FFin] in
-      ({| m_bd := m_bd m; m_err := m_err m; m_gone := true; m_rx := rx'; m_burst := m_burst m |} :: r,
-       false :: map (fun x => negb (m_gone x)) r)
-  | m :: r, S i' => let '(r', al) := drop_sender r i' in (m :: r', negb (m_gone m) :: al)
+      if m_gone m then (m :: r, [])
+      else
+        let '(rx', res) := feed_eager (m_rx m) [FFin] in
+        ({| m_bd := m_bd m; m_err := m_err m; m_gone := true; m_rx := rx'; m_burst := m_burst m |} :: r, res)
+  | m :: r, S i' => let '(r', res) := drop_sender r i' in (m :: r', res)
+  end.
+
+Definition mout_nums (sent : list (N * N)) (o : option nat * mentry) : list N :=
+  match snd o with
+  | MVal b => bres_nums sent (ROk b)
+  | MErr e => [1; e]
+  | MFinal => [2]
   end.
 
 (** [order]: the sends of the current burst in op order; rejected ones are marked *)
@@ -206,23 +238,21 @@ Fixpoint run_mpsc_ops (c : scfg) (ck : N) (ops : list op) (w : mworld) (order : 
       if rejected then run_mpsc_ops c ck r w (order ++ [(s, true)])
       else
         run_mpsc_ops c ck r
-          {| mw_snd := enqueue (mw_snd w) i s; mw_q := mw_q w; mw_alive := mw_alive w;
+          {| mw_snd := enqueue (mw_snd w) i s; mw_m := mw_m w;
              mw_sent := mw_sent w ++ [(sp_tag s, sp_plen s)] |} (order ++ [(s, false)])
   | OBurst :: r =>
-      let '(snd', q, al, cl) := burst_all c ck (mw_snd w) in
+      let '(snd', m', cl) := burst_all c ck (mw_snd w) 0 (mw_m w) in
       merge_classes order cl ++
-      run_mpsc_ops c ck r {| mw_snd := snd'; mw_q := mw_q w ++ q; mw_alive := al; mw_sent := mw_sent w |} []
+      run_mpsc_ops c ck r {| mw_snd := snd'; mw_m := m'; mw_sent := mw_sent w |} []
   | ORecv :: r =>
-      match mw_q w with
-      | x :: q' =>
-          bres_nums (mw_sent w) x ++
-          run_mpsc_ops c ck r {| mw_snd := mw_snd w; mw_q := q'; mw_alive := mw_alive w; mw_sent := mw_sent w |} order
-      | [] =>
-          (if existsb (fun b => b) (mw_alive w) then [3] else [2]) ++ run_mpsc_ops c ck r w order
-      end
+      let m' := mstep (mw_m w) MRecv in
+      (if (length (outs (mw_m w)) <? length (outs m'))%nat
+       then match rev (outs m') with o :: _ => mout_nums (mw_sent w) o | [] => [3] end
+       else [3]) ++
+      run_mpsc_ops c ck r {| mw_snd := mw_snd w; mw_m := m'; mw_sent := mw_sent w |} order
   | ODrop i :: r =>
-      let '(snd', al) := drop_sender (mw_snd w) (N.to_nat i) in
-      run_mpsc_ops c ck r {| mw_snd := snd'; mw_q := mw_q w; mw_alive := al; mw_sent := mw_sent w |} order
+      let '(snd', res) := drop_sender (mw_snd w) (N.to_nat i) in
+      run_mpsc_ops c ck r {| mw_snd := snd'; mw_m := forward (mw_m w) (N.to_nat i) res; mw_sent := mw_sent w |} order
   end.
 
 (** ** oneshot (kind 4): every send op is a fresh channel *)
@@ -255,7 +285,7 @@ Definition run_base (inp : list N) : list N :=
           | 2 =>
               let m0 := {| m_bd := 0%Z; m_err := false; m_gone := false; m_rx := binit rmd DEFAULT_MAX_PORTS smax; m_burst := [] |} in
               let n := N.to_nat (N.min rb 3) in
-              run_mpsc_ops c cs ops {| mw_snd := repeat m0 n; mw_q := []; mw_alive := repeat true n; mw_sent := [] |} []
+              run_mpsc_ops c cs ops {| mw_snd := repeat m0 n; mw_m := minit (repeat [] n) 64; mw_sent := [] |} []
           | 4 => run_oneshot_ops c cs rmd DEFAULT_MAX_PORTS ops
           | 5 | 6 => [1]
           | _ => [98]
